@@ -1076,6 +1076,9 @@ func c12(c *core.Ctx) {
 		c.Floor("asset-setters/raw-writes", n, 5)
 	})
 
+	c.Clause("C12.9", "supply and equity of a branch are what that branch's transactions made them: the account an execution writes never aliases the value a stored view keeps (clause C09.6, evaluated here as well — a candidate block's Finalise would write its roots into the stable state's account)")
+	c.Run("copy-at-the-boundary", func() { c09CopyAtBoundary(c) })
+
 	c.NotDecidedf("Σ equity over all holders = recorded total supply as an invariant over histories of transactions (arithmetic over runtime state; only the per-transaction shape — same amount on both sides, guards, closed writer sets — is decided)")
 	c.NotDecidedf("that no holder's equity becomes negative as a value: decided only structurally (non-negative amount; debit guarded by equity ≥ amount on the divisible path; indivisible path debits the whole holding)")
 	c.NotDecidedf("the journalled undo of the equity / supply logs (C07), the contents of Account.SetEquityState / SetAssetCodeTotalSupply themselves, and error exits after a failed READ between the two writes (they return a transaction-level error; the caller discards the whole transaction)")
@@ -1423,6 +1426,13 @@ func c12IsValuable(c *core.Ctx) {
 			why := p0
 			if why == "" {
 				why = p1
+			}
+			// a comparison handed to a function is whole only for the comparators of the standard library (a repository helper may look at
+			// part of the values: two signer lists with the same addresses and different weights)
+			if call, isCall := in.(*ssa.Call); isCall && why == "" {
+				if o := core.CalleeObj(call); o == nil || o.Pkg() == nil || strings.HasPrefix(o.Pkg().Path(), core.ModPath) {
+					why = "comparison delegated to " + objName(o)
+				}
 			}
 			c.Check("IsValuable:whole-values#"+string(rune('a'+m-1)), "comparison-shape", why == "", in.Pos(), "old and new value are compared whole: %s", orOK(why))
 		}
